@@ -460,6 +460,11 @@ func (t *Trie) updateRefCount(h util.Uint256, key []byte, index uint32) int32 {
 		data, err = getFromStore(key, t.mode, t.Store)
 		if err == nil {
 			cnt = int32(binary.LittleEndian.Uint32(data[len(data)-4:]))
+			// The slice belongs to the storage layer (it isn't copied on Get),
+			// it can be persisted concurrently or belong to the lower layer
+			// that must stay intact if these changes are discarded, so never
+			// update the counter in place.
+			data = slices.Clone(data)
 		}
 	}
 	if len(data) == 0 {
